@@ -113,30 +113,34 @@ Definition ty_exact_ge (ty : Z) : bool := (ty =? T_EXACT) || (ty =? T_GE).
 
 (** sites of negaScout whose tt.insert stores (r_ty, setScore(score, ply)) *)
 Definition storing_site (site : Z) : bool :=
-  (site =? 8) || (site =? 9) || (site =? 10) || (site =? 13) || (site =? 14) || (site =? 16) || (site =? 18).
+  (site =? 8) || (site =? 9) || (site =? 10) || (site =? 13) || (site =? 16) || (site =? 18).
 
-(** negaScout after mate-distance pruning; [b] is the clipped beta *)
+(** negaScout after mate-distance pruning; [b] is the clipped beta.  [tyok]: the bound type the
+    node stores is consistent with its window (checked at every storing site; a checkmated
+    node at site 18 stores T_LE whatever the window is, which is justified because the mated
+    score is derivable for every window) *)
 Definition check_body (acc : accmap) (st : stmap) (n : nrec) (o : orec) (b : Z) : bool :=
   let a := r_a n in let s := r_s n in let ply := r_ply n in let site := r_site n in
-  (if storing_site site then type_okb (r_ty n) a b s && score_okb s else true) &&
-  (if site =? 2 then o_ic o && isnil (o_moves o) && (s =? mated_score ply)
-   else if (site =? 3) || (site =? 4) then s =? 0
-   else if site =? 5 then tt_ok st n ty_any && isCutOff (r_ttty n) (r_ttd n) s a b (r_depth n)
-   else if site =? 8 then qroot_ok acc n a b
-   else if site =? 9 then negb (o_ic o) && (a <? b) && (0 <=? r_mg n)
-                          && qroot_ok acc n (a - r_mg n) (b - r_mg n) && (s <=? a - r_mg n)
-   else if site =? 10 then negb (o_ic o) && (b <=? s) && negb (isWinScore s)
-   else if site =? 11 then negb (o_ic o) && negb (isWinScore b) && (b <=? s) && negb (isWinScore s)
-   else if site =? 12 then tt_ok st n ty_exact_le && isLoseScore s && (r_ty n =? T_LE)
-   else if site =? 13 then (b <=? s) && implb (isWinScore s) (win_child_ok acc ply s o)
-   else if site =? 14 then negb (o_ic o) && isnil (o_moves o) && (s =? 0)
-   else if site =? 16 then (a <? s) && (s <? b)
-                           && implb (isWinScore s) (win_child_ok acc ply s o)
-                           && implb (isLoseScore s) (negb (isnil (o_moves o)) && all_children_ok acc ply s o)
-   else if site =? 17 then tt_ok st n ty_exact_ge && isWinScore s && (r_ty n =? T_GE)
-   else if site =? 18 then ((s <=? a) && implb (isLoseScore s) (lose_support_ok acc ply s o))
-                           || (o_ic o && isnil (o_moves o) && (s =? mated_score ply))
-   else false).
+  let tyok := type_okb (r_ty n) a b s && score_okb s in
+  if site =? 2 then o_ic o && isnil (o_moves o) && (s =? mated_score ply)
+  else if (site =? 3) || (site =? 4) then s =? 0
+  else if site =? 5 then tt_ok st n ty_any && isCutOff (r_ttty n) (r_ttd n) s a b (r_depth n)
+  else if site =? 8 then tyok && qroot_ok acc n a b
+  else if site =? 9 then tyok && negb (o_ic o) && (a <? b) && (0 <=? r_mg n)
+                         && qroot_ok acc n (a - r_mg n) (b - r_mg n) && (s <=? a - r_mg n)
+  else if site =? 10 then tyok && negb (o_ic o) && (b <=? s) && negb (isWinScore s)
+  else if site =? 11 then negb (o_ic o) && negb (isWinScore b) && (b <=? s) && negb (isWinScore s)
+  else if site =? 12 then tt_ok st n ty_exact_le && isLoseScore s && (r_ty n =? T_LE)
+  else if site =? 13 then tyok && (b <=? s) && implb (isWinScore s) (win_child_ok acc ply s o)
+  else if site =? 14 then negb (o_ic o) && isnil (o_moves o) && (s =? 0)
+  else if site =? 16 then tyok && (a <? s) && (s <? b)
+                          && implb (isWinScore s) (win_child_ok acc ply s o)
+                          && implb (isLoseScore s) (negb (isnil (o_moves o)) && all_children_ok acc ply s o)
+  else if site =? 17 then tt_ok st n ty_exact_ge && isWinScore s && (r_ty n =? T_GE)
+  else if site =? 18 then (tyok && (s <=? a) && implb (isLoseScore s) (lose_support_ok acc ply s o))
+                          || (o_ic o && isnil (o_moves o) && (s =? mated_score ply) && score_okb s
+                              && ((r_ty n =? T_EXACT) || (r_ty n =? T_GE) || (r_ty n =? T_LE)))
+  else false.
 
 (** [justify]: is the node's returned score justified by a rule instance? *)
 Definition check_node (acc : accmap) (st : stmap) (n : nrec) (o : orec) : bool :=
